@@ -92,7 +92,11 @@ func New(prop, tier string, seed int64, level string) *Run {
 var knownRe = regexp.MustCompile(`^known:\s+property=(\S+)\s+(\S+)\s+(.*)$`)
 
 func (r *Run) loadKnown() {
-	f, err := os.Open(filepath.Join(Root, "KNOWN_FINDINGS.txt"))
+	path := os.Getenv("VERIF_KNOWN")
+	if path == "" {
+		path = filepath.Join(Root, "KNOWN_FINDINGS.txt")
+	}
+	f, err := os.Open(path)
 	if err != nil {
 		return
 	}
